@@ -86,6 +86,7 @@ class WSGIWrapper:
     def run_app(self, environ: dict, send: Callable) -> None:
         headers: List[Tuple[bytes, bytes]]
         response_started = False
+        headers_sent = False
         status_code: Optional[int] = None
 
         def start_response(
@@ -103,15 +104,24 @@ class WSGIWrapper:
             ]
             response_started = True
 
+        def send_start() -> None:
+            # The app may call start_response as late as the first
+            # iteration of the body (PEP 3333)
+            nonlocal headers_sent
+
+            if not response_started:
+                raise RuntimeError("WSGI app did not call start_response")
+            send({"type": "http.response.start", "status": status_code, "headers": headers})
+            headers_sent = True
+
         response_body = self.app(environ, start_response)
-
-        if not response_started:
-            raise RuntimeError("WSGI app did not call start_response")
-
-        send({"type": "http.response.start", "status": status_code, "headers": headers})
         try:
             for output in response_body:
+                if not headers_sent:
+                    send_start()
                 send({"type": "http.response.body", "body": output, "more_body": True})
+            if not headers_sent:
+                send_start()
         finally:
             if hasattr(response_body, "close"):
                 response_body.close()
